@@ -19,6 +19,10 @@ NA = {
 }
 
 CHECKS = {
+ "C09": dict(engine="sim-build", category="exploration", design_ref="DESIGN.md §4 C09",
+   text="Seeded exploration of hash epochs (SipHash keys of every std HashMap via a getrandom seam) x source-file creation/discovery order x thread-pool width x histories on one Project / one CodeGenerator, over generated multi-module projects and the dependency-free acceptance projects; every shipped or displayed observable is compared byte for byte with a reference build (fixed epoch, sorted order, one thread, fresh compiler per operation). Sampling, not proof.",
+   note="Trusted: the reference build itself; the getrandom seam reaching every RandomState; rayon's real scheduler on width>1 steps (oracle is equality with the sequential reference, so it cannot false-alarm).",
+   technique="deterministic simulation: seeded hash-order, discovery-order, pool-width and compiler-instance-history exploration vs reference build"),
  "C05": dict(engine="sim-budget", category="exploration", design_ref="DESIGN.md §4 C05",
    text="Seeded exploration of batching interval x budget-exhaustion point x (language, protocol, cost vector) over the whole upstream conformance corpus plus generated loop programs, against the unbatched execution as reference model and the upstream golden budgets (v3). Sampling, not proof: it decides batching independence and the succeed-iff-cost<=budget rule on everything explored.",
    note="Trusted: the machine under slippage 1 as the unbatched reference; upstream .budget.expected files for the v3 corpus; the harness's parser of tests/conformance.rs for the ledger vectors.",
